@@ -13,7 +13,9 @@ Record obs := mkObs {
                              (13,_) a waiter whose awaited loader failed, parked after reportReattempt, before it re-takes
                              Cache.mu and re-examines payload[key] *)
   o_acct : Z;               (* Cleaner.getSize() *)
-  o_live : Z;               (* sum of entry sizes over the payloads of all caches *)
+  o_live : Z;               (* sum of entry sizes (the size field) over the payloads of all caches *)
+  o_occ  : Z;               (* what the live entries really occupy: for every valid entry of every payload, entrySize +
+                               the size that the loader which produced its value reported *)
   o_bk   : list nat         (* Cleaner.buckets as cache ids *)
 }.
 
@@ -39,21 +41,21 @@ Definition thr_code (th : thread) : Z * Z :=
   end.
 
 Definition obs_of (st : state) (r : list Z) : obs :=
-  mkObs r (map thr_code (threads st)) (acct st) (live st) (buckets st).
+  mkObs r (map thr_code (threads st)) (acct st) (live st) (occupied st) (buckets st).
 
 Fixpoint run_evs (st : state) (evs : list ev) : list obs * state :=
   match evs with
   | [] => ([], st)
   | e :: r => match exec_ev st e with
               | Some (st', rt) => let '(os, fin) := run_evs st' r in (obs_of st' rt :: os, fin)
-              | None => ([mkObs [-1] [] 0 0 []], st)   (* the model cannot execute the event *)
+              | None => ([mkObs [-1] [] 0 0 0 []], st)   (* the model cannot execute the event *)
               end
   end.
 
 Definition zz_eqb (a b : Z * Z) := (fst a =? fst b) && (snd a =? snd b).
 Definition obs_eqb (a b : obs) : bool :=
   list_eqb Z.eqb (o_ret a) (o_ret b) && list_eqb zz_eqb (o_thr a) (o_thr b) &&
-  (o_acct a =? o_acct b) && (o_live a =? o_live b) && list_eqb Nat.eqb (o_bk a) (o_bk b).
+  (o_acct a =? o_acct b) && (o_live a =? o_live b) && (o_occ a =? o_occ b) && list_eqb Nat.eqb (o_bk a) (o_bk b).
 
 Definition idx_of (g : nat) (l : list nat) : Z :=
   match find_idx (Nat.eqb g) l 0%nat with Some i => Z.of_nat i | None => -1 end.
@@ -186,7 +188,7 @@ Fixpoint orl (a b : list bool) : list bool :=
   end.
 
 Fixpoint spec_run (strict : bool) (lim : Z) (cl : list call) (evs : list ev) (impl : list obs)
-                  (ncache ncall : nat) (rel : list nat) (seen inep : list bool) : bool :=
+                  (ncache ncall : nat) (rel : list nat) (seen inep : list bool) (inpass : bool) : bool :=
   match evs, impl with
   | [], [] => true
   | e :: er, o :: ir =>
@@ -195,10 +197,18 @@ Fixpoint spec_run (strict : bool) (lim : Z) (cl : list call) (evs : list ev) (im
       let rel' := match e with ERelease c => c :: rel | _ => rel end in
       (* the loaders of a fill all run (fresh keys; the harness checks it) *)
       let seen' := mark_seen (seen ++ match e with EFill fresh _ _ n _ _ => repeat fresh n | _ => [] end) (o_thr o) in
+      (* a cleaning pass parked between markStale and its sweeps: the stale generations are off the cleaner's list while
+         their entries are still in the maps, so getSize = live sum is not required until the pass has swept *)
+      let inpass' := match e, o_ret o with
+                     | ECleanMark, 1 :: _ => true
+                     | ECleanSweeps, _ => false
+                     | _, _ => inpass
+                     end in
       let new := newly seen seen' in
       let act := orl inep new in
       let inep' := match e, o_ret o with
                    | ECleanup, 1 :: _ | ECleanupNew, 1 :: _ => []
+                   | ECleanSweeps, _ => []
                    | ERelease _, _ => []
                    | _, _ => act
                    end in
@@ -206,9 +216,11 @@ Fixpoint spec_run (strict : bool) (lim : Z) (cl : list call) (evs : list ev) (im
       Nat.eqb (length (o_thr o)) ncall' && thrs_ok cl seen' cl seen' (o_thr o) &&
       (* single flight: one load per key and epoch *)
       loads_ok (zip_rows 0%nat cl (o_thr o) act new) &&
-      (* accounting: the size the cleaner accounts = sum of live entries (also while savers are parked at
-         the schedule point after save's unlock, and while creators are inside their loaders) *)
-      (negb strict || (o_acct o =? o_live o)) &&
+      (* accounting: the size the cleaner accounts = sum of live entries, by their size fields and by what they really
+         occupy (also while savers are parked at the schedule point after save's unlock, while creators are inside
+         their loaders, and while a cleaning pass is parked between markStale and its sweeps) *)
+      (negb strict || inpass' || ((o_acct o =? o_live o) && (o_acct o =? o_occ o))) &&
+      (negb strict || (o_live o =? o_occ o)) &&
       (* every cache that was not released is under the cleaner's management *)
       forallb (fun c => memb c rel' || memb c (o_bk o)) (seq 0 ncache') && nodupb (o_bk o) &&
       forallb (fun c => Nat.ltb c ncache') (o_bk o) &&
@@ -217,7 +229,7 @@ Fixpoint spec_run (strict : bool) (lim : Z) (cl : list call) (evs : list ev) (im
       | ECleanup, 1 :: _ | ECleanupNew, 1 :: _ => (o_acct o <=? lim) && (negb strict || (o_live o <=? lim))
       | _, _ => true
       end &&
-      spec_run strict lim cl er ir ncache' ncall' rel' seen' inep'
+      spec_run strict lim cl er ir ncache' ncall' rel' seen' inep' inpass'
   | _, _ => false
   end.
 
@@ -228,7 +240,7 @@ Definition case_spec_ok (c : case) : bool :=
       (* at the end (nothing in flight): the current generation of every cache that was not released is the
          cleaner's last generation *)
       forallb (fun s => s_rel s || (s_cur s =? Z.of_nat (length gsizes) - 1)) snaps &&
-      spec_run strict lim (calls_of evs) evs impl 0%nat 0%nat [] [] []
+      spec_run strict lim (calls_of evs) evs impl 0%nat 0%nat [] [] [] false
   end.
 
 Definition diff_indices (l : list case) : list nat := bad_indices (fun c => negb (case_agrees c)) l.
